@@ -7,8 +7,8 @@ Definition cell_inv (w : Z) (c : cell) : Prop := cell_q c = trunc w (cell_value 
 Lemma trunc_0 w : trunc w 0 = 0.
 Proof. reflexivity. Qed.
 
-Lemma cell0_inv w : cell_inv w (cell0 0).
-Proof. unfold cell_inv. cbn [cell0 cell_q cell_value fst snd Reg_s_value]. rewrite trunc_0. reflexivity. Qed.
+Lemma cell0_inv w : cell_inv w cell_zero.
+Proof. unfold cell_inv. cbn [cell_zero cell_q cell_value fst snd Reg_s_value]. rewrite trunc_0. reflexivity. Qed.
 
 (* ------------------------------------------------------------------ one edge of the chain *)
 Lemma delay_step_length w he hr : forall cs a e r, length (delay_step w he hr cs a e r) = length cs.
@@ -118,7 +118,7 @@ Proof. intros Hw. apply (delay_run_rel w he hr delay h Hw). Qed.
 Lemma delay_run_length w he hr delay h :
   length (run (delay_m w he hr) (delay_init delay) h) = delay.
 Proof.
-  unfold delay_init. rewrite <- (repeat_length (cell0 0) delay) at 2. generalize (repeat (cell0 0) delay).
+  unfold delay_init. rewrite <- (repeat_length cell_zero delay) at 2. generalize (repeat cell_zero delay).
   induction h as [|i h IH]; intros cs; [reflexivity|]. rewrite run_cons, IH. destruct i as [[a e] r]. apply delay_step_length.
 Qed.
 
